@@ -28,11 +28,12 @@ func init() {
 			NotCovered: "that the ring buffer of golibs behaves as a ring (trusted), so that R7's structure (limit+1 slots, push before read, comparison with " +
 				"the interval) yields an exact sliding window; the expiry timing of the backoff tables (temporal facts outside static reach); the allowlist's own matching.",
 			Rules: map[string]string{"C09-R1": "middleware gate tables", "C09-R2": "limiter check order, family selection, keying", "C09-R3": "profile limiter table",
-				"C09-R4": "window counter under its lock", "C09-R7": "window counter structure: the ring holds limit+1 time stamps; every event (also one that is dropped) is pushed before the oldest one is read; the event is above the limit iff the oldest kept stamp is set and within the interval", "C09-R5": "every estimated response is counted", "C09-R6": "configuration-to-limiter field map (each family's count, interval and key length under its own name)"},
+				"C09-R4": "window counter under its lock", "C09-R8": "the dynamic allowlist is replaced only after a successful load (a failed refresh keeps the previous allowlist)", "C09-R7": "window counter structure: the ring holds limit+1 time stamps; every event (also one that is dropped) is pushed before the oldest one is read; the event is above the limit iff the oldest kept stamp is set and within the interval", "C09-R5": "every estimated response is counted", "C09-R6": "configuration-to-limiter field map (each family's count, interval and key length under its own name)"},
 		}})
 }
 
 func runC09(c *an.Ctx) {
+	c09Allowlist(c)
 	c09Window(c)
 	c.Floor("C09-R1", 3)
 	c.Floor("C09-R2", 2)
@@ -541,4 +542,33 @@ func c09Window(c *an.Ctx) {
 			return ""
 		},
 	})
+}
+
+// c09Allowlist checks that a failed refresh of the Consul allowlist keeps the
+// previous allowlist: the Update call is reached only through the success
+// branch of the load's error check.
+func c09Allowlist(c *an.Ctx) {
+	c.Floor("C09-R8", 1)
+	const k = "consul.(*AllowlistUpdater).Refresh"
+	fn := c.Fn(k)
+	if fn == nil {
+		c.Und("C09-R8", k, token.NoPos, "anchor not found")
+		return
+	}
+	c.Analysed(k)
+	n := 0
+	for _, call := range an.Calls(fn) {
+		if _, isDefer := call.(*ssa.Defer); isDefer {
+			continue
+		}
+		if strings.HasSuffix(an.CalleeName(call), "DynamicAllowlist).Update") || (call.Common().IsInvoke() && call.Common().Method.Name() == "Update") {
+			n++
+			c13Commit(c, "C09-R8", fn, "allowlist replacement", call, func(name string) bool {
+				return strings.Contains(name, "Logger).") || strings.HasPrefix(name, "fmt.") || strings.Contains(name, ".metrics.") || strings.HasSuffix(name, "errcoll.Collect")
+			})
+		}
+	}
+	if n == 0 {
+		c.Und("C09-R8", k+" commit", fn.Pos(), "the allowlist Update call was not found")
+	}
 }
